@@ -113,12 +113,159 @@ def canon(v):
 
 
 def canon_decoded(v):
-    """bdecode returns str when the bytes are valid UTF-8 else bytes; lists; dicts."""
-    return canon(v)
+    """Canonical form of a bdecode result.  bdecode returns str when the bytes are valid UTF-8 else bytes, so a
+    dict that was encoded with bytes keys can come back with str keys or a str/bytes mix: keys are compared as bytes."""
+    if v is None:
+        return ("none",)
+    if isinstance(v, bool) or isinstance(v, float):
+        raise TypeError("not a bdecode result")
+    if isinstance(v, int):
+        return ("i", v)
+    if isinstance(v, str):
+        return ("b", v.encode())
+    if isinstance(v, bytes):
+        return ("b", v)
+    if isinstance(v, list):
+        return ("l", tuple(canon_decoded(x) for x in v))
+    if isinstance(v, dict):
+        return ("d", tuple(sorted((k.encode() if isinstance(k, str) else k, canon_decoded(x)) for k, x in v.items())))
+    raise TypeError(type(v))
+
+
+def show_dec(v):
+    """bdecode result -> the driver's `dval` text (dict = Python dict view: sorted by key bytes)."""
+    if v is None:
+        return "N"
+    if isinstance(v, bool):
+        raise TypeError("bool from bdecode")
+    if isinstance(v, int):
+        return "i%d" % v
+    if isinstance(v, str):
+        return "b" + v.encode().hex()
+    if isinstance(v, bytes):
+        return "b" + v.hex()
+    if isinstance(v, list):
+        return "(L" + "".join(" " + show_dec(x) for x in v) + ")"
+    if isinstance(v, dict):
+        items = sorted((k.encode() if isinstance(k, str) else k, x) for k, x in
+                       ((k, x) for k, x in v.items()))
+        return "(D" + "".join(" (b" + k.hex() + " " + show_dec(x) + ")" for k, x in items) + ")"
+    raise TypeError(type(v))
+
+
+def real_decode(bdecode, data):
+    """`ok <dval> <unread>` or `!ErrorName` for bdecode on a BytesIO over `data`."""
+    from io import BytesIO
+    f = BytesIO(data)
+    try:
+        r = bdecode(f)
+    except (TypeError, ValueError, AssertionError, OverflowError) as e:
+        return "!" + type(e).__name__
+    return "ok %s %d" % (show_dec(r), len(data) - f.tell())
+
+
+# ------------------------------------------------------------------ malformed byte streams for bdecode
+MALFORMED_CORPUS = [
+    b"", b"e", b"ee", b"l", b"d", b"i", b"le", b"de", b"lle", b"llle", b"lde", b"dle", b"li1e", b"l1:e", b"l1:a",
+    b"d1:ae", b"d1:aee", b"d1:aeX", b"d1:a", b"d1:ai1e", b"d1:ai1ee", b"d1:ai1e1:a", b"x", b"-1:a", b":", b"1", b"1:", b"0:", b"00:",
+    # ints: what int() takes and what it does not
+    b"i0e", b"i-0e", b"i+0e", b"i03e", b"i-03e", b"i003e", b"i 3e", b"i3 e", b"i 3 e", b"i\t3\n\r\x0b\x0ce", b"i+3e", b"i++3e",
+    b"i+-3e", b"i- 3e", b"i-e", b"i+e", b"ie", b"i e", b"i1_0e", b"i1__0e", b"i_1e", b"i1_e", b"i1_ e", b"i-_1e", b"i1_0_0e",
+    b"i0x10e", b"i1.0e", b"i1\x00e", b"i\x001e", b"i\xef\xbc\x91e", b"i\xd9\xa1e", b"i1", b"i1x", b"i", b"i12", b"i-",
+    b"i1ei2e", b"i1ee", b"i9223372036854775808e", b"i-9223372036854775809e", b"i" + b"9" * 400 + b"e", b"i" + b"0" * 300 + b"7e",
+    # strings: length prefix
+    b"03:abc", b"3:ab", b"3:abc", b"3:abcd", b"1_0:abcdefghijk", b"1 :a", b"1\n:a", b"1+:a", b"1-:a", b"1e:a", b"1a:a", b"12", b"1e",
+    b"9223372036854775807:a", b"9223372036854775808:a", b"99999999999999999999999:a", b"18446744073709551616:", b"4294967296:ab",
+    b"2147483648:ab", b"0" * 50 + b"2:ab", b"1:\xff", b"2:\xc3\xa9", b"2:\xc3\x28", b"3:\xed\xa0\x80", b"1:e", b"1::", b"0:e", b"0:0:",
+    # wrong terminators / truncation of containers
+    b"li1e", b"li1ee", b"li1eee", b"li1", b"li1e:", b"li1ex", b"l1:ae", b"l1:a", b"lli1ee", b"lli1e", b"ll", b"ld", b"lde", b"ldee",
+    b"ldle", b"d1:ale", b"d1:alee", b"d1:adee", b"d1:ade", b"d1:a1:b", b"d1:a1:be", b"d1:a1:b1:c", b"d1:a1:b1:ce", b"d1:a1:b1:cee",
+    # dict keys: non-string, unsorted, duplicate, str/bytes mix, None values
+    b"di1ei2ee", b"dlei1ee", b"ddei1ee", b"dei1e", b"d1:bi1e1:ai2ee", b"d1:ai1e1:ai2ee", b"d1:ai1e1:bi2e1:ai3ee",
+    b"d1:ad1:bi1e1:bi2eee", b"d1:\xffi1e2:\xc3\xa9i2ee", b"d1:\xffi1e1:\xffi2ee", b"d0:i1e0:i2ee", b"d1:ae1:bi1ee", b"d1:ai1e1:bee",
+    b"d1:ai1e1:be", b"d1:ad1:bee", b"d1:ali1eee", b"ld1:aee", b"ld1:ae",
+    # nested garbage
+    b"l" * 40 + b"e" * 40, b"l" * 40 + b"e", b"l" * 40, b"l" * 40 + b"e" * 41, b"d1:a" * 20 + b"e" * 20, b"d1:a" * 20 + b"e",
+    b"ld1:ald1:ali1eeeeee", b"ld1:ald1:ali1eeeee", b"ld1:ald1:ali1eeee", b"lxe", b"l e", b"l\ne", b"d e", b"i1e\n", b"le\n", b" le",
+    b"\xffle", b"\x00", b"l\x00e", b"L", b"D", b"I1e", b"E",
+]
+
+
+def _benc_items(items):
+    """encode a dict body from an item list as given (no sorting, duplicates kept) -- not an encoding of anything."""
+    out = b"d"
+    for k, v in items:
+        out += str(len(k)).encode() + b":" + k + v
+    return out + b"e"
+
+
+def gen_malformed(rng, bencode):
+    """One malformed (or accidentally well-formed) byte string."""
+    k = rng.random()
+    alphabet = b"ilde0123456789:-_ +\n\xffa"
+    if k < 0.45:
+        # mutate a real encoding
+        b = bytearray(bencode(gen_val(rng, rng.choice([1, 2, 2, 3]), bad=False)))
+        for _ in range(rng.choice([1, 1, 1, 2, 3])):
+            m = rng.random()
+            pos = rng.randrange(len(b) + 1)
+            if m < 0.3:
+                del b[pos:]                                     # truncate
+            elif m < 0.45 and b:
+                del b[min(pos, len(b) - 1)]                     # drop a byte
+            elif m < 0.65:
+                b.insert(pos, rng.choice(alphabet))             # insert
+            elif m < 0.8 and b:
+                b[min(pos, len(b) - 1)] = rng.choice(alphabet)  # replace
+            elif m < 0.9:
+                b += bytes(rng.choice(alphabet) for _ in range(rng.randrange(1, 4)))   # trailing bytes
+            else:
+                q = rng.randrange(len(b) + 1)
+                lo, hi = min(pos, q), max(pos, q)
+                b[lo:lo] = b[lo:hi]                             # duplicate a slice
+        return bytes(b)
+    if k < 0.6:
+        # int literal between i and e (the harness explores what int() takes)
+        n = rng.randrange(0, 7)
+        return b"i" + bytes(rng.choice(b"0123459 \t-+__\n\x00x") for _ in range(n)) + rng.choice([b"e", b"e", b"e", b"", b"ee"])
+    if k < 0.72:
+        # length prefix
+        pre = rng.choice([b"0", b"00", b"1", b"2", b"3", b"03", b"1_0", b"1 ", b"1__0", b"1_", b"10", b"9223372036854775807",
+                          b"9223372036854775808", b"%d" % rng.randrange(0, 12), b"%d" % (10 ** rng.randrange(1, 30))])
+        body = bytes(rng.choice(b"abe:\xff1") for _ in range(rng.randrange(0, 12)))
+        return pre + rng.choice([b":", b":", b":", b"", b"e", b"::"]) + body
+    if k < 0.84:
+        # dicts with unsorted / duplicate / non-string keys and None values
+        items = []
+        for _ in range(rng.randrange(0, 5)):
+            key = rng.choice([b"a", b"b", b"ab", b"", b"\xff", b"\xc3\xa9", b"a", b"b"])
+            val = rng.choice([b"i1e", b"i2e", b"1:x", b"le", b"de", b"d1:ai1ee", b"li1ee", b"", b"e"])
+            items.append((key, val))
+        b = _benc_items(items)
+        if rng.random() < 0.2:
+            b = b[:-1]
+        if rng.random() < 0.15:
+            b = b[:1] + rng.choice([b"i1e", b"le", b"de"]) + b[1:]     # non-string key first
+        return rng.choice([b"", b"", b"l", b"d1:k"]) + b + rng.choice([b"", b"", b"e", b"ee"])
+    # token soup
+    toks = [b"i", b"l", b"d", b"e", b"e", b"1:a", b"0:", b"i1e", b"i-1e", b"le", b"de", b":", b"-", b"0", b"2:ab", b"2:a", b"x", b" ", b"_",
+            b"\xff", b"1", b"9"]
+    return b"".join(rng.choice(toks) for _ in range(rng.randrange(0, 10)))
 
 
 def trivial(v):
     return isinstance(v, (int, str, bytes)) and not isinstance(v, bool)
+
+
+def int_literals(rng, exhaustive_len):
+    """every string over a small alphabet up to a length (the int() grammar), as `i<s>e`"""
+    import itertools
+    alpha = [b"0", b"1", b"7", b" ", b"-", b"+", b"_", b"\n", b"x"]
+    out = []
+    for n in range(exhaustive_len + 1):
+        for t in itertools.product(alpha, repeat=n):
+            out.append(b"i" + b"".join(t) + b"e")
+    return out
 
 
 def run(ctx):
@@ -133,6 +280,9 @@ def run(ctx):
         {"é": 1, "z": 2}, {"日": 1, "é": 2, "a": 3}, {b"a": 1}, {"a": 1},
         True, [True], {"a": None}, {"a": 1.0}, {1: 2}, {"a": 1, b"b": 2}, {(1, 2): 3}, [1, [2, [3, [False]]]],
         10 ** 40, -(10 ** 40), "1:a1:b", ["1:a", "1:b"],
+        # bytes keys that bdecode gives back as a str/bytes mix; keys that are prefixes of each other
+        {b"\xff": 1, b"a": 2}, {b"\xff": 1, b"\xfe": 2, b"": 3}, {"a": 1, "aa": 2, "": 3, "a\x00": 4}, {"b": 1, "a": {"d": 1, "c": 2}},
+        {"\U0001f600": 1, "\uffff": 2}, 0, -7, 10 ** 18, 2 ** 63, -(2 ** 63) - 1, "x" * 300, [[[[[[[[]]]]]]]],
     ]
     cases.extend(corpus)
     for i in range(ctx.n(3000, 40000)):
@@ -140,6 +290,7 @@ def run(ctx):
     reqs = ["enc " + to_sx(v) for v in cases]
     model_out = ctx.model("C14", reqs)
     table = {}
+    encodings = []
     for v, mo in zip(cases, model_out):
         try:
             b = bencode(v)
@@ -166,6 +317,7 @@ def run(ctx):
             ctx.violation("C14-rejects-encodable", "bencode rejected an encodable structure", case=repr(v),
                           expected="bytes", actual="TypeError")
             continue
+        encodings.append((b, c))
         prev = table.setdefault(b, (c, v))
         if prev[0] != c:
             ctx.violation("C14-collision", "two different structures have the same encoding",
@@ -189,6 +341,50 @@ def run(ctx):
         if bencode(d) != bencode(d2):
             ctx.violation("C14-key-order", "dict insertion order changes the encoding", case={"a": repr(d), "b": repr(d2)},
                           expected="equal bytes", actual="different")
+
+    # ---------------------------------------------------------------- decoder: model `decode` vs real `bdecode`
+    # (a) real encodings, alone and followed by other bytes (`dec_enc` with a rest);
+    # (b) malformed bytes.  The property says nothing about (b): only the correspondence is checked there.
+    dec_inputs = []
+    seen = set()
+    for b, c in encodings:
+        if b in seen:
+            continue
+        seen.add(b)
+        dec_inputs.append(("encoding", b, c, len(b)))
+        if rng.random() < 0.3:
+            rest = rng.choice([b"e", b"i1e", b"0:", b"x", b"\xff", b"le", b"ee", bytes(rng.randrange(256) for _ in range(3))])
+            dec_inputs.append(("encoding+rest", b + rest, c, len(b)))
+    malformed = list(MALFORMED_CORPUS)
+    malformed += int_literals(rng, 3 if ctx.tier == "quick" else 4)
+    for _ in range(ctx.n(2500, 30000)):
+        malformed.append(gen_malformed(rng, bencode))
+    for b in malformed:
+        dec_inputs.append(("malformed", b, None, None))
+    dec_out = ctx.model("C14", [("dec " + b.hex()).rstrip() for _, b, _, _ in dec_inputs])
+    seen_mal = set()
+    for (kind, b, c, enc_len), mo in zip(dec_inputs, dec_out):
+        impl = real_decode(bdecode, b)
+        if kind == "malformed":
+            ctx.case(key=None if b in seen_mal or len(b) < 2 else ("dec", b), sample=None, dec_input="malformed",
+                     dec_outcome=impl.split(" ")[0])
+            seen_mal.add(b)
+        if mo != impl:
+            ctx.mismatch("bdecode differs from model decode (value, error class or unread byte count)",
+                         case={"kind": kind, "bytes": b.hex()}, model=mo[:300], impl=impl[:300])
+        if kind != "malformed":
+            # property oracle: an encoding decodes to the structure it encodes and stops exactly at its end
+            from io import BytesIO
+            f = BytesIO(b)
+            try:
+                back = canon_decoded(bdecode(f))
+                used = f.tell()
+            except Exception as e:  # noqa: BLE001
+                back, used = "!" + type(e).__name__, None
+            if back != c or used != enc_len:
+                ctx.violation("C14-decode-roundtrip", "bdecode of an encoding (followed by other bytes) does not return the "
+                              "encoded structure or reads past its end", case={"bytes": b.hex(), "kind": kind},
+                              expected=(repr(c)[:200], enc_len), actual=(repr(back)[:200], used))
 
 
 def replay(ctx, case):
